@@ -134,6 +134,7 @@ def run_screen_case(case, tmp, res, check=True):
     """runs the implementation; returns (line for the model, expected output, screen or None)"""
     from batchie.data import Screen
     raw = case["raw"]
+    case = dict(case, part="screen")
     # NaN payloads do not survive JSON: the case keeps bit patterns next to the floats
     if case.get("obs_bits") is not None:
         raw = dict(raw)
@@ -178,6 +179,7 @@ def run_screen_case(case, tmp, res, check=True):
 
 def run_space_case(case, tmp, res, s0):
     from batchie.data import ExperimentSpace
+    case = dict(case, part="space")
     e0 = ExperimentSpace.from_screen(s0)
     want = space_observables(e0)
     fn = os.path.join(tmp, "e.h5")
@@ -311,11 +313,13 @@ def replay(ctx, case, res):
             if case["names"] and dec != S.lst(S.name_tok(x) for x in case["names"]):
                 res.fail("string table does not survive encode/h5/decode", case, dec, case["names"])
             return
+        part = case.get("part")
         try:
-            line, out, s0 = run_screen_case(case, tmp, res)
+            line, out, s0 = run_screen_case(case, tmp, common.Result() if part == "space" else res)
         except Exception as e:
             res.fail("constructor/save raises on a valid screen", case, "%s: %s" % (type(e).__name__, e), "a saved screen")
             return
-        run_space_case(case, tmp, res, s0)
+        if part != "screen":
+            run_space_case(case, tmp, res, s0)
     finally:
         shutil.rmtree(tmp, ignore_errors=True)
